@@ -69,8 +69,6 @@ def fmtSent (l : List Target) : String :=
 def fmtResult : Result → String
   | .respGw => "resp:gw"
   | .respDirect => "resp:direct"
-  | .raiseDec .addressValue => "raise:AddressValueError"
-  | .raiseDec .unicode => "raise:UnicodeError"
   | .raiseGwApp => "raise:AppGw"
   | .raiseDirectApp => "raise:AppDirect"
 
@@ -79,7 +77,7 @@ def parseSent (w : String) : Option (List Target) :=
   else (w.splitOn ",").mapM fun x => if x == "gw" then some Target.gw else if x == "direct" then some .direct else none
 
 def parseResult (w : String) : Option Result :=
-  [Result.respGw, .respDirect, .raiseDec .addressValue, .raiseDec .unicode, .raiseGwApp, .raiseDirectApp].find?
+  [Result.respGw, .respDirect, .raiseGwApp, .raiseDirectApp].find?
     (fun r => fmtResult r == w)
 
 structure RunSt where
@@ -163,26 +161,17 @@ def judgeFinish (s : JudgeSt) : String :=
     let h := s.hist.reverse
     if holds s.cfg h then "ok"
     else
-      let where_ := match firstBad s.cfg Ref.init 0 h with
-        | some (i, _) =>
-          match h[i]? with
-          | some o => s!"call#{i} t={o.t} host={encStr o.inp.host} sent={fmtSent o.out.sent} res={fmtResult o.out.result}"
-          | none => s!"call#{i}"
-        | none => "?"
-      if holdsModulo s.cfg h then s!"fail F19a decision-raised-into-application {where_}"
-      else
-        -- name the first event that is bad and not of class F19a
-        let rec find (r : Ref) (i : Nat) : List Obs → String
-          | [] => "?"
-          | o :: rest =>
-            if eventOk s.cfg r o || excused s.cfg r o then find (r.next s.cfg o) (i + 1) rest
-            else
-              let why := if !noSwallow o then "result-or-legs-wrong"
-                else if !cooldownRespected s.cfg r o then "gateway-contacted-during-cooldown"
-                else if !filterRespected s.cfg o then "excluded-destination-routed"
-                else "routable-destination-not-tried-through-gateway"
-              s!"{why} call#{i} t={o.t} host={encStr o.inp.host} sent={fmtSent o.out.sent} res={fmtResult o.out.result}"
-        s!"fail - {find Ref.init 0 h}"
+      match firstBad s.cfg Ref.init 0 h with
+      | some (i, r) =>
+        match h[i]? with
+        | some o =>
+          let why := if !noSwallow o then "result-or-legs-wrong"
+            else if !cooldownRespected s.cfg r o then "gateway-contacted-during-cooldown"
+            else if !filterRespected s.cfg o then "excluded-destination-routed"
+            else "routable-destination-not-tried-through-gateway"
+          s!"fail - {why} call#{i} t={o.t} host={encStr o.inp.host} sent={fmtSent o.out.sent} res={fmtResult o.out.result}"
+        | none => s!"fail - spec-violated call#{i}"
+      | none => "fail - spec-violated"
 
 def main (args : List String) : IO Unit :=
   match args with
